@@ -52,8 +52,11 @@ def build_model():
     ensure_dirs()
     env = dict(os.environ, VERIF_REPO=REPO, MAKE_K='1')
     t0 = time.time()
-    p = subprocess.run(['sh', os.path.join(COQ, 'build.sh')], stdout=subprocess.PIPE, stderr=subprocess.STDOUT,
-                       env=env, text=True, timeout=3600)
+    import fcntl
+    with open(os.path.join(WORK, '.lock-coq'), 'w') as lk:          # one build at a time when checks run in parallel
+        fcntl.flock(lk, fcntl.LOCK_EX)
+        p = subprocess.run(['sh', os.path.join(COQ, 'build.sh')], stdout=subprocess.PIPE, stderr=subprocess.STDOUT,
+                           env=env, text=True, timeout=3600)
     open(os.path.join(WORK, 'coq_build.log'), 'w').write(p.stdout)
     log('[coq] build.sh exit=%d in %.1fs' % (p.returncode, time.time() - t0))
     return p.returncode == 0 and os.path.exists(os.path.join(VERIF, 'ocaml', 'xmodel')), p.stdout
@@ -118,6 +121,9 @@ def proof_status(pid, thorough=False):
 
 # ---------------------------------------------------------------- implementation side
 def build_driver(config):
+    """compile harness/driver.cpp against /repo's current headers in the given configuration (cached by content
+    hash; safe when several checks run at once: one lock file per configuration)"""
+    import fcntl
     ensure_dirs()
     flags = CONFIGS[config]
     src = os.path.join(VERIF, 'harness', 'driver.cpp')
@@ -125,15 +131,23 @@ def build_driver(config):
     out = os.path.join(WORK, 'bin', 'driver-%s-%s' % (config, key))
     if os.path.exists(out):
         return out
-    for old in glob.glob(os.path.join(WORK, 'bin', 'driver-%s-*' % config)):
-        os.unlink(old)
-    cmd = flags + [GUARD, '-I', os.path.join(REPO, 'include'), src, '-o', out + '.tmp']
-    t0 = time.time()
-    p = subprocess.run(cmd, stdout=subprocess.PIPE, stderr=subprocess.STDOUT, text=True, timeout=1800)
-    if p.returncode != 0:
-        raise RuntimeError('driver build failed (%s):\n%s' % (config, p.stdout[-4000:]))
-    os.rename(out + '.tmp', out)
-    log('[impl] built driver %s in %.1fs' % (config, time.time() - t0))
+    with open(os.path.join(WORK, 'bin', '.lock-%s' % config), 'w') as lk:
+        fcntl.flock(lk, fcntl.LOCK_EX)
+        if os.path.exists(out):
+            return out
+        # keep at most two older binaries of this configuration (another check may still be running one)
+        olds = sorted(glob.glob(os.path.join(WORK, 'bin', 'driver-%s-*' % config)), key=os.path.getmtime)
+        for old in olds[:-2]:
+            try: os.unlink(old)
+            except OSError: pass
+        tmp = '%s.tmp.%d' % (out, os.getpid())
+        cmd = flags + [GUARD, '-I', os.path.join(REPO, 'include'), src, '-o', tmp]
+        t0 = time.time()
+        p = subprocess.run(cmd, stdout=subprocess.PIPE, stderr=subprocess.STDOUT, text=True, timeout=1800)
+        if p.returncode != 0:
+            raise RuntimeError('driver build failed (%s):\n%s' % (config, p.stdout[-4000:]))
+        os.rename(tmp, out)
+        log('[impl] built driver %s in %.1fs' % (config, time.time() - t0))
     return out
 
 def build_drivers(configs):
